@@ -72,8 +72,11 @@ Section WithIsPrint.
   Definition quote_string (s : bytes) : bytes :=
     let q := suitable_quote s in [q] ++ quote_content (length s) q s ++ [q].
 
+  (* SAFE_CAST and REPLACE_FIELDS are not reserved, but the parser never reads their bare spelling as an identifier *)
+  Definition always_special (s : bytes) : bool := equal_fold s (bs "SAFE_CAST") || equal_fold s (bs "REPLACE_FIELDS").
+
   Definition need_quote_ident (s : bytes) : bool :=
-    is_keyword s ||
+    is_keyword s || always_special s ||
     match s with
     | c :: _ => negb (is_ident_start c) || negb (forallb is_ident_part s)
     | [] => true
